@@ -1,3 +1,4 @@
 import ArroyProofs.AuditCmd
 import ArroyProofs.Properties.C13
+import ArroyProofs.Properties.C13Build
 #audit Arroy.C13
